@@ -608,7 +608,26 @@ def c11(cfg):
     inj.arm([])  # invocations are counted from the first request on (the definition only reads zeroth-order terms)
     trigger = tuple(cfg.get("trigger", (0, 0, 0, mo)))  # (w,i,j,o) request during which faults are injected
     w, i, j, o = trigger
-    series[w][(i, j, o)]
+    form = cfg.get("trigger_form", "int")
+
+    def fire(series_):
+        """The request during which faults are injected, in one of the index forms the public API accepts."""
+        S = series_[w]
+        if form == "int":
+            return S[(i, j, o)]
+        if form == "order_slice":
+            return S[i, j, : o + 1]
+        if form == "block_slice":
+            return S[:, :, o]
+        if form == "negative":
+            return S[(i - P.nb, j - P.nb, o)]
+        if form == "list":
+            return S[[i], j, o]
+        if form == "view":
+            return S[i, j][o]
+        raise KeyError(form)
+
+    fire(series)
     counts = dict(inj.count)
     ref = {k: _dense_value(P, series[k[0]][(k[1], k[2], k[3])], k[1], k[2]) for k in all_keys}
     kinds = cfg.get("kinds", ["H", "sylvester", "matmul"])
@@ -620,7 +639,7 @@ def c11(cfg):
         for a in pts:
             points.append((a, ("H", 0)))  # second fault: first H evaluation of the retry
     after = cfg.get("after", "same_then_all")
-    sig = f"fault:herm={P.hermitian}:sizes={'|'.join(map(str, P.sizes))}"
+    sig = f"fault:herm={P.hermitian}:sizes={'|'.join(map(str, P.sizes))}:request={form}"
     n_cases = 0
     failures = []
     unknown = 0
@@ -638,7 +657,7 @@ def c11(cfg):
             inj.arm(targets)
             raised = None
             try:
-                series[w][(i, j, o)]
+                fire(series)
             except BaseException as e:  # noqa: BLE001
                 raised = e
             case = {"point": list(map(str, pt)), "exception": en, "trigger": list(trigger)}
@@ -661,7 +680,7 @@ def c11(cfg):
             if cfg.get("double"):
                 inj.arm([(second[0], second[1], exc)])
                 try:
-                    series[w][(i, j, o)]
+                    fire(series)
                 except BaseException:  # noqa: BLE001
                     pass
                 left = _pending_left(list(series))
@@ -785,4 +804,8 @@ def configs_c11(tier, seed):
                 for after in ("same_then_all", "reverse"):
                     cfgs.append(dict(base, trigger=list(tr), after=after))
             cfgs.append(dict(base, trigger=[0, 0, 0, mo], double=True, exceptions=["RuntimeError", "KeyboardInterrupt"]))
+            # the interrupted request itself given as slice / list / negative index / finite view
+            for form in ("order_slice", "block_slice", "negative", "list", "view"):
+                cfgs.append(dict(base, trigger=[0 if form != "negative" else 1, 0, nb - 1, mo], trigger_form=form, after="same_then_all",
+                                 exceptions=["Exception", "KeyboardInterrupt"] if tier == "quick" else ["Exception", "RuntimeError", "KeyboardInterrupt"]))
     return [("vf.props.history", "c11", c) for c in cfgs]
